@@ -292,8 +292,14 @@ func scanOnlyCallers(P *Program, sp ScanSpec) []*OblResult {
 				if cc == nil {
 					continue
 				}
-				if f := cc.StaticCallee(); f != nil && CanonName(f) == callee {
-					found[CanonName(fn)] = true
+				if f := cc.StaticCallee(); f != nil {
+					n := CanonName(f)
+					if f.Synthetic != "" {
+						n = strings.Replace(n, "(*", "(", 1) // pointer-receiver thunk of a value method
+					}
+					if n == callee {
+						found[CanonName(fn)] = true
+					}
 				}
 			}
 		}
